@@ -141,6 +141,10 @@ fn emit() {
             o["adesc"] = json!(adescs.iter().map(|d| d.iter().map(|x| x.to_string()).collect::<Vec<_>>()).collect::<Vec<_>>());
             o["shapes"] = json!(shapes.iter().map(|s| json!({"source": s.source, "sdesc": s.sdesc.iter().map(|x| x.to_string()).collect::<Vec<_>>()})).collect::<Vec<_>>());
         }
+        if p.name == "c17pda" {
+            // the hand-written FULL layouts of the types that use #[type_to_idl(skip)] (pdaprog/src/lib.rs)
+            o["skip_manifest"] = serde_json::from_str(c17pda::C17_SKIP_MANIFEST).expect("C17_SKIP_MANIFEST is JSON");
+        }
         match idl {
             Err(e) => {
                 o["idl_error"] = json!(e);
